@@ -9,9 +9,11 @@ import (
 )
 
 type wrrFreshCase struct {
-	Weights []int  `json:"weights"`
-	Via     string `json:"via"`
-	Build   string `json:"build"` // config (NewLoadBalancer) | admin (empty pool + lb.AddBackend per backend)
+	Weights []int    `json:"weights"`
+	Via     string   `json:"via"`
+	Build   string   `json:"build"` // config (NewLoadBalancer) | admin (empty pool + lb.AddBackend per backend)
+	Load    loadPlan `json:"inflight"`
+	Obs     obsPlan  `json:"observers"`
 }
 
 // wrrFresh builds a fresh weighted_round_robin pool and checks every window of S = sum(max(w,1))
@@ -30,16 +32,18 @@ func wrrFresh(c wrrFreshCase) (string, error) {
 	if err != nil {
 		return "", err
 	}
-	defer p.lb.Stop()
+	defer p.close()
 	want := map[string]int{}
 	S := 0
 	for _, n := range p.names {
 		want[n] = eff(p.weight[n])
 		S += want[n]
 	}
+	c.Load.Parked = 0 // a parked request would be the pool's first request: fresh pools get gauge-only load
+	p.applyLoad(c.Load)
 	seq := make([]string, 0, 4*S)
 	for i := 0; i < 4*S; i++ {
-		name, _ := p.pick(c.Via)
+		name, _ := p.windowPick(c.Via, c.Obs, i)
 		seq = append(seq, name)
 	}
 	return everyWindowExact(seq, S, want), nil
@@ -67,7 +71,8 @@ func hasBelowOne(ws []int) bool {
 func TestC05WRRFreshEnum(t *testing.T) {
 	const name = "wrr-fresh-enum"
 	sub := lab.Sub(name, "enumeration of ALL weight vectors in {0..6}^n, n=1..4 (2800 vectors, split over the shards), fresh pool from configuration; "+
-		"4*S requests (S = sum max(w,1)) through lb.NextBackend (even vector index) or lb.ServeHTTP(L1) (odd); oracle: every window of S consecutive requests at "+
+		"4*S requests (S = sum max(w,1)) through lb.NextBackend (even vector index) or lb.ServeHTTP(L1) (odd); per vector index, 2/3 with admin/monitoring calls interleaved and "+
+		"1/2 with in-flight counts {0,1,99,100,101,500} on the backends (varied dimensions, not part of the enumerated space); oracle: every window of S consecutive requests at "+
 		"every offset 0..3S gives backend i exactly max(w_i,1); non-trivial = n>=2 and effective weights not all equal")
 	var rc wrrFreshCase
 	if lab.ReplayCase(name, &rc) {
@@ -99,11 +104,20 @@ func TestC05WRRFreshEnum(t *testing.T) {
 				if i%2 == 1 {
 					c.Via = "serve"
 				}
+				if (i/2)%3 != 0 { // 2/3 of the vectors: observers interleaved, kind and period from the index
+					c.Obs = obsPlan{Period: 1 + (i/6)%3, Start: (i / 18) % nObservers}
+				}
+				if (i/2)%2 == 1 { // half of the vectors: in-flight magnitudes rotated over the backends
+					c.Load.Pre = make([]int, n)
+					for j := range c.Load.Pre {
+						c.Load.Pre[j] = inflightMagnitudes[(i/4+j*5)%len(inflightMagnitudes)]
+					}
+				}
 				v, err := wrrFresh(c)
 				if err != nil {
 					t.Fatalf("harness: %v", err)
 				}
-				labels := []string{fmt.Sprintf("n%d", n), "via-" + c.Via}
+				labels := append([]string{fmt.Sprintf("n%d", n), "via-" + c.Via}, planLabels(c.Load, c.Obs)...)
 				if hasBelowOne(c.Weights) {
 					labels = append(labels, "weight-below-1")
 				}
@@ -152,12 +166,13 @@ func TestC05WRRFreshSampled(t *testing.T) {
 				}
 			}
 		}
-		c := wrrFreshCase{Weights: ws, Via: rapid.SampledFrom([]string{"next", "serve"}).Draw(rt, "via"), Build: build}
+		c := wrrFreshCase{Weights: ws, Via: rapid.SampledFrom([]string{"next", "serve"}).Draw(rt, "via"), Build: build,
+			Load: drawLoad(rt, n, false), Obs: drawObs(rt)}
 		v, err := wrrFresh(c)
 		if err != nil {
 			rt.Fatalf("harness: %v", err)
 		}
-		labels := []string{"via-" + c.Via, "build-" + build}
+		labels := append([]string{"via-" + c.Via, "build-" + build}, planLabels(c.Load, c.Obs)...)
 		if n >= 5 {
 			labels = append(labels, "n5-8")
 		}
